@@ -41,6 +41,10 @@ CosCases(shape) ==
    /\ P(CaseRec("cos", "ConstantOfShape", <<>>, <<I64(shape)>>, LowerA(SemConstantOfShape(I64(shape), <<>>)), <<"value", "default_value">>))
    /\ (shape = <<1>> => LET VV == [dt |-> "i32", shape |-> <<1>>, data |-> <<-7>>] IN
           \A shp \in {<<40003>>, <<20001, 2>>} : P(CaseRec("cos", "ConstantOfShape", <<AT("value", VV)>>, <<I64(shp)>>, SemConstantOfShape(I64(shp), <<AT("value", VV)>>), <<"value", "long">>)))
+   \* the one-element value may be declared with any rank: (1,1), (1,1,1), and rank 0
+   /\ (shape \in {<<2>>, <<2, 3>>} => \A dt \in {"f32", "i64", "bool"}, enc \in {"raw", "typed"}, vs \in {<<1, 1>>, <<1, 1, 1>>, <<>>} :
+          LET VV == AttrT(dt, vs, enc) s == SemConstantOfShape(I64(shape), <<AT("value", VV)>>) IN
+          P(CaseRec("cos", "ConstantOfShape", <<AT("value", VV)>>, <<I64(shape)>>, s, <<Tag(s), dt, enc, "value_rank" \o ToString(Len(vs))>>)))
    /\ \A dt \in ProtoTypes, enc \in {"raw", "typed"}, k \in {2, 3} :
          LET V == AttrT(dt, <<1>>, enc) VV == [V EXCEPT !.data = <<AttrT(dt, <<3>>, enc).data[k]>>]
              s == SemConstantOfShape(I64(shape), <<AT("value", VV)>>) IN
